@@ -50,7 +50,9 @@ type c20Variant struct {
 	ProbeCombos []int  `json:"probe_combos"` // ... with methods that are not registered on the path ([0] = OPTIONS, [1] = others)
 	Phase       string `json:"phase"`        // order of sending: "deny" (must be rejected) first, then "late" (malformed / lenient
 	// shapes that a defective or lenient implementation may let through), then "allow" (right credentials)
-	TCP bool `json:"tcp"` // also sent through the real listener
+	TCP            bool `json:"tcp"`              // also sent through the real listener
+	MayPass        bool `json:"may_pass"`         // lenient-right shape: being let through is acceptable
+	PrimeSameRoute bool `json:"prime_same_route"` // phase "after": also preceded by the right credentials on the same route
 }
 
 type c20Config struct {
@@ -647,6 +649,7 @@ func TestVerifC20(t *testing.T) {
 		Timeout:       20 * time.Second,
 	}
 	slowGraces, reruns := 0, 0
+	letThrough, skipped := 0, 0
 	send := func(s reqSpec, via, phase string) c20Record {
 		rec := c20Record{T: "req", Via: via, Phase: phase, Route: -1, Path: s.path, Method: s.method, Reg: s.reg,
 			Variant: s.v.ID}
@@ -821,7 +824,19 @@ func TestVerifC20(t *testing.T) {
 			if cfg.Only != nil && cfg.Only.Via != "" && cfg.Only.Via != via {
 				continue
 			}
+			if cfg.Only != nil && cfg.Only.Via == "after" {
+				continue
+			}
+			if phase != "allow" && letThrough > 400 {
+				// a broken tree lets (nearly) everything through and every such request runs a real handler
+				// against a dead database: 400 cases are evidence enough, the rest of the phase is skipped
+				skipped++
+				continue
+			}
 			rec := send(s, via, phase)
+			if phase != "allow" && rec.DHandler > 0 && !s.v.MayPass {
+				letThrough++
+			}
 			// a database connection seen during a request that must be rejected: re-run the same request alone
 			// three times, it counts only if it shows up every time (the reporter applies the rule)
 			if phase == "deny" && rec.DDB > 0 && reruns < 5 {
@@ -899,6 +914,70 @@ func TestVerifC20(t *testing.T) {
 	run("allow", "inproc", all)
 	run("allow", "tcp", tcpSel)
 
+	// phase "after": the verdict for a header must not depend on what was served before.  Every value that must be
+	// rejected is sent once more (no other headers), each time immediately after a request with the RIGHT
+	// credentials (on a cheap route, and for the values marked so by the reporter also on the same route): state
+	// left behind by the legitimate request (pooled buffers, caches) must not help the next one.
+	primers := 0
+	if cfg.Only == nil || cfg.Only.Via == "after" {
+		var right *c20Variant
+		for i := range cfg.Variants {
+			if cfg.Variants[i].Phase == "allow" {
+				right = &cfg.Variants[i]
+				break
+			}
+		}
+		none := -1
+		for i, cb := range cfg.Combos {
+			if len(cb.Headers) == 0 {
+				none = i
+			}
+		}
+		var cheap *c20Route
+		for _, r := range routes {
+			if r.HasHandle && r.URL != "" && (r.Template == "/config" || r.Template == "/api/status/buildinfo") {
+				cheap = r
+				break
+			}
+		}
+		if right != nil && cheap != nil {
+			saved := cfg.Only
+			cfg.Only = nil
+			for _, s := range specs {
+				if s.v.Phase == "allow" || s.v.MayPass || !s.reg || (len(cfg.Combos) > 0 && s.combo != none) {
+					continue
+				}
+				if saved != nil && !(s.path == saved.Path && s.method == saved.Method && s.v.ID == saved.VariantID) {
+					continue
+				}
+				if letThrough > 400 {
+					skipped++
+					continue
+				}
+				var prs []reqSpec
+				prs = append(prs, reqSpec{cheap, cheap.URL, "GET", true, *right, none})
+				if s.v.PrimeSameRoute {
+					prs = append(prs, reqSpec{s.route, s.path, s.method, true, *right, none})
+				}
+				for _, pr := range prs {
+					p := send(pr, "inproc", "allow")
+					primers++
+					if p.DHandler == 0 {
+						p.T, p.Phase = "req", "allow" // the right credentials were refused: let the reporter see it
+						out.emit(p)
+					}
+					rec := send(s, "inproc", "after")
+					if rec.DHandler > 0 {
+						letThrough++
+					}
+					out.emit(rec)
+				}
+			}
+			cfg.Only = saved
+			out.flush()
+		}
+	}
+
 	hits := map[string]int64{}
 	for _, r := range routes {
 		hits[strconv.Itoa(r.Idx)] = atomic.LoadInt64(r.hits)
@@ -908,6 +987,6 @@ func TestVerifC20(t *testing.T) {
 		out.emit(map[string]any{"t": "fatal", "msg": msg})
 	default:
 	}
-	out.emit(map[string]any{"t": "end", "route_hits": hits, "total_ms": time.Since(mainStart).Milliseconds(),
+	out.emit(map[string]any{"t": "end", "route_hits": hits, "skipped_after_400_let_through": skipped, "primers": primers, "total_ms": time.Since(mainStart).Milliseconds(),
 		"db": db.stats()})
 }
